@@ -76,6 +76,28 @@ theorem caller_data_untouched (m : Method) (hm : m ∈ methods) (n : Nat) (o : O
   have h := List.all_eq_true.mp all_methods_own_safe m hm
   exact own_sound m.ownProg m.borrowed h n o s hnext henv
 
+/-! ### the property over histories (the quantifier: all sequences of successful and failing calls) -/
+
+/-- a history: public methods of the current source called one after the other on the same estimator, each with its own
+oracle (branch outcomes, iteration counts, the call at which an exception is raised - successful and failing calls alike) -/
+def runHistory : List (Method × Oracle) → ParamSafe.St → ParamSafe.St
+  | [], s => s
+  | (m, o) :: rest, s => runHistory rest (exec ParamSafe.sem m.paramProg o s).2.1
+
+/-- after ANY sequence of calls of public methods of the current source - whichever of them fail, and wherever they fail -
+every hyper-parameter holds the value it had before the first call (induction over the history) -/
+theorem hyperparams_unchanged_over_any_history (h : List (Method × Oracle)) (hm : ∀ mo ∈ h, mo.1 ∈ methods)
+    (s : ParamSafe.St) : ∀ k, (runHistory h s).params k = s.params k := by
+  induction h generalizing s with
+  | nil => intro k; rfl
+  | cons mo rest ih =>
+    intro k
+    obtain ⟨m, o⟩ := mo
+    have h1 := hyperparams_unchanged m (hm (m, o) (List.mem_cons_self ..)) o s k
+    have h2 := ih (fun x hx => hm x (List.mem_cons_of_mem _ hx)) (exec ParamSafe.sem m.paramProg o s).2.1 k
+    simp only [runHistory]
+    rw [h2, h1]
+
 /-! ### non-vacuity and sanity of the analyses on hand-written skeletons -/
 
 /-- save / halve / call / restore WITHOUT try-finally (the shape `ConstraintKMeans.fit` had): rejected,
